@@ -524,6 +524,28 @@ def rule_crc(P, rep, f, dead):
     calls = list(g.calls('state_read_content'))
     rep.check(bool(sets) and bool(calls) and all(g.must_pass(s, calls) for s in sets), 'R-C09-4', 'state_read sets checked_read only after state_read_content', g.file, '%d stores, %d decoder calls' % (len(sets), len(calls)), function='state_read', construct='checked_read')
 
+    # a copy that could be opened is decoded (or the run dies): the "no content file, assume empty" path is reachable only when
+    # every open failed, never because an opened stream was given up
+    rep.rule('R-C09-4e', 'state_read: the stream variable is null only initially or as the result of a failed open; an opened copy is closed only after the decoder ran', 2)
+    fal = [i for i in g.all_insts() if i.op == 'alloca' and i.vty and 'STREAM' in i.vty.upper()]
+    opens = list(g.calls('sopen_read'))
+    if len(fal) != 1 or len(opens) != 1:
+        raise AnalysisBroken('state_read: stream local / sopen_read not found')
+    sts = [u for u in g.users.get(fal[0].id, ()) if u.op == 'store' and g.strip(u.ops[1]) == ['i', fal[0].id]]
+    bad_st = []
+    for u in sts:
+        v = g.strip(u.ops[0])
+        if v == ['i', opens[0].id]:
+            continue
+        if g.const_of(u.ops[0]) == 0 and g.loop_of(u.block) is None and g.dominates(u, opens[0]):
+            continue
+        bad_st.append('line %s: f = %s' % (u.line, g.expr(u.ops[0])))
+    rep.check(not bad_st, 'R-C09-4e', 'state_read: no assignment gives up an opened content copy', opens[0].loc(), 'stores to the stream variable: %d' % len(sts) if not bad_st else 'the stream is reset after the open (%s): a copy that exists can be treated as missing' % bad_st, function='state_read', construct='stream reset')
+    closes = list(g.calls('sclose'))
+    dec = list(g.calls({'state_read_content', 'state_read_text'}))
+    okc = bool(closes) and bool(dec) and all(g.must_pass(c_, dec) for c_ in closes)
+    rep.check(okc, 'R-C09-4e', 'state_read: sclose only after the decoder', closes[0].loc() if closes else g.file, '%d close sites' % len(closes), function='state_read', construct='close after decode')
+
 
 def rule_main_order(ctx, rep):
     """no command body runs before state_read returned: in main every state_* command call is preceded by state_read on all paths"""
